@@ -1,3 +1,4 @@
+CONSTANT Want = {"c04"}
 INIT TraceInit
 NEXT TraceNext
 INVARIANTS C04_Evolution
